@@ -280,6 +280,9 @@ def gen_y(rng, n, style=None):
         ys = [rng.randint(-5, 2) for _ in range(n)]
     elif style == "big":
         ys = [rng.randint(-3, 3) * 10 ** rng.randint(0, 6) for _ in range(n)]
+    elif style == "near":  # neighbours that differ by a few parts in a million / a billion (no relative tie tolerance either)
+        base = rng.choice([1, 1, 1000, Fraction(1, 8)])
+        ys = [base * (1 + Fraction(rng.randint(-6, 6), rng.choice([2**18, 2**28]))) for _ in range(n)]
     elif style == "tiny":  # small units: no absolute tolerance may be applied in the algorithm
         ys = [Fraction(rng.randint(-9, 9), 2**45) for _ in range(n)]
     else:
